@@ -6,5 +6,12 @@ struct VhCallsHooks { long (*node)(long); void (*node_void)(long); };
 static VhCallsHooks g_vh_hooks;
 void vh_set_hooks(long (*node)(long), void (*node_void)(long)) { g_vh_hooks.node = node; g_vh_hooks.node_void = node_void; }
 long gl_node(long a) { return g_vh_hooks.node(a); }
+// which library is this?  `vh_whoami` reaches its helper through the dynamic symbol table (default visibility), so a loader
+// that binds the library's symbols globally would let ANOTHER loaded library's helper answer
+#ifndef VH_GUEST_ID
+#  define VH_GUEST_ID 1
+#endif
+int vh_helper_id() { return VH_GUEST_ID; }
+int vh_whoami() { return vh_helper_id() * 100 + VH_GUEST_ID; }
 void gv_node(long a) { g_vh_hooks.node_void(a); }
 }
